@@ -42,6 +42,10 @@ def build_variant(members, variant, out, seed):
         ms, added = layout.add_empty_row_headers(members)
         layout.write_zip(ms, out)
         return added
+    elif variant == "tile-refs-reversed":
+        ms, n = layout.reverse_tile_refs(members)
+        layout.write_zip(ms, out)
+        return n
     elif variant == "empty-row-records":
         ms, added = layout.add_empty_row_records(members)
         layout.write_zip(ms, out)
@@ -108,7 +112,7 @@ def main():
     # fixtures that have rows without a record in their tiles: the same table with an explicit (cell-less) record for each of them
     extra = [f for f in docsnap.fixtures() if os.path.basename(f) in ("issue-14.numbers", "test-empty-rows.numbers", "issue-73.numbers") and f not in fs]
     cases += [{"path": f, "variant": "empty-row-records", "seed": a.seed} for f in extra]
-    cases += [{"path": "built:large", "variant": v, "seed": a.seed} for v in ("rechunk-one", "rechunk-1k", "rechunk-random", "package", "zip-reversed-stored")]
+    cases += [{"path": "built:large", "variant": v, "seed": a.seed} for v in ("rechunk-one", "rechunk-1k", "rechunk-random", "package", "zip-reversed-stored", "tile-refs-reversed")]
     return common.run(cases, run_case)
 
 
